@@ -67,7 +67,7 @@ func isFootnoteNode(n *Node) bool {
 
 // footnoteDisplay: the display of a footnote element in the footnote area (css-gcpm-3 §2.4
 // footnote-display: block -> block element; inline -> inline element; compact -> the UA chooses
-// between the two, inline here as in WeasyPrint).
+// between the two: the model says inline, the walker also takes a block box, see checkElements).
 func footnoteDisplay(n *Node) string {
 	if n.FD == "inline" || n.FD == "compact" {
 		return "inline"
